@@ -38,6 +38,15 @@ pub enum Op {
 }
 
 /// Background pixel value for position i, component j (fixed, varied).
+/// With `opaque` the alpha component (last) of every background pixel is max, max-1 or max-2
+/// (a mostly opaque image: the situation vectorised "all opaque" shortcuts are written for).
+fn bg2(i: usize, j: usize, n: usize, max: u64, opaque: bool) -> u64 {
+    if opaque && j == n - 1 {
+        return max - (i as u64 % 3);
+    }
+    bg(i, j, max)
+}
+
 fn bg(i: usize, j: usize, max: u64) -> u64 {
     let v = (i as u64 * 7919 + j as u64 * 104729 + 12345) % (max + 1);
     match (i + j) % 5 {
@@ -47,7 +56,7 @@ fn bg(i: usize, j: usize, max: u64) -> u64 {
     }
 }
 
-pub fn run_case<P, const K: usize, const N: usize, const M: usize>(cpu: CpuExtensions, op: Op, idx: usize, alpha_lo: u64, alpha_hi: u64)
+pub fn run_case<P, const K: usize, const N: usize, const M: usize>(cpu: CpuExtensions, op: Op, idx: usize, alpha_lo: u64, alpha_hi: u64, opaque_bg: bool)
 where
     P: PixelTrait,
     P::Component: KComp + kani::Arbitrary + From<u8> + TryFrom<u64>,
@@ -65,7 +74,7 @@ where
     while i < K {
         let mut j = 0;
         while j < N {
-            src[i * N + j] = conv(bg(i, j, max));
+            src[i * N + j] = conv(bg2(i, j, N, max, opaque_bg));
             j += 1;
         }
         i += 1;
@@ -138,11 +147,11 @@ where
 }
 
 macro_rules! c06 {
-    ($name:ident, $P:ty, $K:expr, $N:expr, $cpu:ident, $op:ident, $idx:expr, $lo:expr, $hi:expr, $unwind:expr) => {
+    ($name:ident, $P:ty, $K:expr, $N:expr, $cpu:ident, $op:ident, $idx:expr, $lo:expr, $hi:expr, $opaque:expr, $unwind:expr) => {
         x86_proof! {
             #[kani::unwind($unwind)]
             pub fn $name() {
-                run_case::<$P, $K, $N, { $K * $N }>(CpuExtensions::$cpu, Op::$op, $idx, $lo, $hi);
+                run_case::<$P, $K, $N, { $K * $N }>(CpuExtensions::$cpu, Op::$op, $idx, $lo, $hi, $opaque);
             }
         }
     };
